@@ -89,6 +89,35 @@ fn run_prim(a: &[&str]) -> String {
             let mut x = PartialFNVHash::new(); for &c in &bs { x += c; } v.push(x.value());
             if v.iter().all(|&y| y == v[0]) { format!("{}", v[0]) } else { format!("FORMS {:?}", v) }
         }
+        // one hasher, a history of chunks each fed through its own update form; value after each chunk
+        [which @ ("rollh" | "fnvh"), chunks @ ..] => {
+            let mut r = RollingHash::new();
+            let mut f = PartialFNVHash::new();
+            let mut out = Vec::new();
+            for c in chunks {
+                let (form, h) = match c.split_once(':') { Some(x) => x, None => return BAD.into() };
+                let bs = match hexdec(h) { Some(b) => b, None => return BAD.into() };
+                macro_rules! feed { ($x:ident) => { match form {
+                    "u" => { $x.update(&bs); }
+                    "i" => { $x.update_by_iter(bs.iter().copied()); }
+                    "b" => { for &c in &bs { $x.update_by_byte(c); } }
+                    "a" => { $x += &bs[..]; }
+                    "A" => { for &c in &bs { $x += c; } }
+                    "n" => { match bs.len() {
+                        1 => { $x += <&[u8; 1]>::try_from(&bs[..]).unwrap(); }
+                        3 => { $x += <&[u8; 3]>::try_from(&bs[..]).unwrap(); }
+                        7 => { $x += <&[u8; 7]>::try_from(&bs[..]).unwrap(); }
+                        8 => { $x += <&[u8; 8]>::try_from(&bs[..]).unwrap(); }
+                        13 => { $x += <&[u8; 13]>::try_from(&bs[..]).unwrap(); }
+                        _ => { $x += &bs[..]; }
+                    } }
+                    _ => return BAD.into(),
+                } } }
+                if *which == "rollh" { feed!(r); out.push(r.value().to_string()); }
+                else { feed!(f); out.push(f.value().to_string()); }
+            }
+            if out.is_empty() { "-".into() } else { out.join(",") }
+        }
         _ => BAD.into(),
     }
 }
@@ -924,6 +953,14 @@ fn payload_of(parts: &[&str]) -> Option<Vec<u8>> {
     }
 }
 
+/// byte iterator over a slice announcing only `(0, hi)` as its size hint
+struct Hinted<'a> { it: std::slice::Iter<'a, u8>, hi: Option<usize> }
+impl<'a> Iterator for Hinted<'a> {
+    type Item = u8;
+    fn next(&mut self) -> Option<u8> { self.it.next().copied() }
+    fn size_hint(&self) -> (usize, Option<usize>) { (0, self.hi) }
+}
+
 fn run_gen(toks: &[&str]) -> String {
     let mut g = Generator::new();
     let mut out: Vec<String> = Vec::new();
@@ -946,7 +983,7 @@ fn run_gen(toks: &[&str]) -> String {
             },
             _ => {
                 let form = if parts.len() == 3 { &parts[0][1.min(parts[0].len())..] } else { parts[0] };
-                if !["u", "a", "i", "b", "A"].contains(&form) { out.push(BAD.into()); continue; }
+                if !["u", "a", "i", "b", "A", "j", "k", "K", "n"].contains(&form) { out.push(BAD.into()); continue; }
                 let bs = match payload_of(&parts) { Some(b) => b, None => { out.push(BAD.into()); continue; } };
                 let r = guarded(|| {
                     let mut g2 = g.clone();
@@ -956,6 +993,17 @@ fn run_gen(toks: &[&str]) -> String {
                         "i" => { g2.update_by_iter(bs.iter().copied()); }
                         "b" => { for &c in &bs { g2.update_by_byte(c); } }
                         "A" => { for &c in &bs { g2 += c; } }
+                        // iterators with a loose (but legal) size hint
+                        "j" => { g2.update_by_iter(Hinted { it: bs.iter(), hi: None }); }
+                        "k" => { g2.update_by_iter(Hinted { it: bs.iter(), hi: Some(bs.len() * 3 + 500) }); }
+                        "K" => { g2.update_by_iter(Hinted { it: bs.iter(), hi: Some(usize::MAX) }); }
+                        "n" => { match bs.len() {
+                            1 => { g2 += <&[u8; 1]>::try_from(&bs[..]).unwrap(); }
+                            5 => { g2 += <&[u8; 5]>::try_from(&bs[..]).unwrap(); }
+                            7 => { g2 += <&[u8; 7]>::try_from(&bs[..]).unwrap(); }
+                            8 => { g2 += <&[u8; 8]>::try_from(&bs[..]).unwrap(); }
+                            _ => { g2 += &bs[..]; }
+                        } }
                         _ => {}
                     }
                     g2
